@@ -184,5 +184,32 @@ def _coqchk(prop: str):
     return p.returncode == 0, p.stdout
 
 
+class CheckTimeout(Exception):
+    pass
+
+
+def _on_alarm(signum, frame):
+    raise CheckTimeout()
+
+
 if __name__ == "__main__":
-    sys.exit(main(sys.argv[1:]))
+    import os
+    import signal
+    _argv = sys.argv[1:]
+    # watchdog: a hang of the implementation (or of the harness) must end in a report, not in silence
+    _tier = _argv[1] if len(_argv) > 1 else "quick"
+    _limit = int(os.environ.get("VERIF_TIMEOUT", "7200" if _tier == "thorough" else "1800"))
+    signal.signal(signal.SIGALRM, _on_alarm)
+    signal.alarm(_limit)
+    try:
+        rc = main(_argv)
+    except CheckTimeout:
+        prop = _argv[0]
+        rp = vlib.write_replay(prop, {"property": prop, "failure": None, "no_longer_checks": [
+            {"kind": "timeout", "name": "check-watchdog",
+             "detail": f"the check did not finish within {_limit} s (VERIF_TIMEOUT): the implementation or the "
+                       "harness hangs on some generated input; traceback of the interrupted frame follows",
+             "traceback": traceback.format_exc()[-3000:]}]})
+        vlib.violation(prop, rp, no_input=True)
+        rc = 1
+    sys.exit(rc)
